@@ -153,7 +153,9 @@ func (self *VM) spawnCore() *Core {
 	self.Cores.Lock.Lock()
 	defer self.Cores.Lock.Unlock()
 
-	ch := make(chan *value.VmInterrupt)
+	// Buffered: every core sends exactly once. After the first interrupt Wait()
+	// stops receiving, so an unbuffered send would block the other cores forever.
+	ch := make(chan *value.VmInterrupt, 1)
 	core := NewCore(
 		&self.Program.Functions,
 		hostcall,
